@@ -64,7 +64,7 @@ theorem step_prop (p : Prop_) (h : SendableProp S p)
     decPropElem C emb (encProp C.toCodec p) = .ok (wdProp C.toCodec p) := by
   obtain ⟨name, ty, val, isArray, asz, refCls, origin, propagated, e, quals⟩ := p
   have hval' := hval name ty val isArray asz refCls origin propagated e quals rfl
-  obtain ⟨hq, hne, hasz, hrc, hre, hv⟩ := h
+  obtain ⟨hq, hne, hasz, hrc, hre, hv, hct⟩ := h
   have hAq := allNames_encQuals C quals
   cases isArray with
   | true =>
@@ -84,16 +84,17 @@ theorem step_prop (p : Prop_) (h : SendableProp S p)
       have hu := unpackValue_plain C S hC ty val hpl _ ["QUALIFIER"] hAq (by simp) (by simp)
       rw [decPropertyArray_noemb C emb _ _ _ _ _ _ asz hc (by rw [parrAttrs_TYPE]; exact hu)
         (boolAttrOf_false _ "PROPAGATED" propagated (parrAttrs_P ..)) hqs
-        (arraySizeOf_ok _ _ (parrAttrs_ASZ ..)) (parrAttrs_EMB ..)]
+        (arraySizeOf_ok _ _ (parrAttrs_ASZ ..)) (parrAttrs_EMB ..) (by rw [parrAttrs_TYPE]; exact hct)]
       simp only [parrAttrs_NAME, parrAttrs_TYPE, parrAttrs_ORIGIN, hqd, wdProp]
     | some es =>
       cases es with
-      | nil => exact absurd rfl hne
+      | nil => exact absurd (hne [] rfl).1 (by decide)
       | cons c cs =>
         have hu := unpackValue_emb C S ty true val hv _ ["QUALIFIER"] hAq (by simp) (by simp)
         rw [decPropertyArray_emb C emb _ _ _ _ _ _ _ asz c cs hc (by rw [parrAttrs_TYPE]; exact hu)
           (boolAttrOf_false _ "PROPAGATED" propagated (parrAttrs_P ..)) hqs
-          (arraySizeOf_ok _ _ (parrAttrs_ASZ ..)) (parrAttrs_EMB ..) (hval' rfl)]
+          (arraySizeOf_ok _ _ (parrAttrs_ASZ ..)) (parrAttrs_EMB ..) (hval' rfl)
+          (by rw [parrAttrs_TYPE]; exact embAttrOk_some c cs ty (hne _ rfl)) (by rw [parrAttrs_TYPE]; exact hct)]
         simp only [parrAttrs_NAME, parrAttrs_TYPE, parrAttrs_ORIGIN, hqd, wdProp]
   | false =>
     have hasz' : asz = none := hasz rfl
@@ -166,15 +167,17 @@ theorem step_prop (p : Prop_) (h : SendableProp S p)
         have hpl := plainVal_of_propVal S ty false val hv (fun h => hty h.2)
         have hu := unpackValue_plain C S hC ty val hpl _ ["QUALIFIER"] hAq (by simp) (by simp)
         rw [decProperty_noemb C emb _ _ _ _ _ _ hc (by rw [propAttrs_TYPE]; exact hu)
-          (boolAttrOf_false _ "PROPAGATED" propagated (propAttrs_P ..)) hqs (propAttrs_EMB ..)]
+          (boolAttrOf_false _ "PROPAGATED" propagated (propAttrs_P ..)) hqs (propAttrs_EMB ..)
+          (by rw [propAttrs_TYPE]; exact hct)]
         simp only [propAttrs_NAME, propAttrs_TYPE, propAttrs_ORIGIN, hqd, wdProp]
       | some es =>
         cases es with
-        | nil => exact absurd rfl hne
+        | nil => exact absurd (hne [] rfl).1 (by decide)
         | cons c cs =>
           have hu := unpackValue_emb C S ty false val hv _ ["QUALIFIER"] hAq (by simp) (by simp)
           rw [decProperty_emb C emb _ _ _ _ _ _ _ c cs hc (by rw [propAttrs_TYPE]; exact hu)
-            (boolAttrOf_false _ "PROPAGATED" propagated (propAttrs_P ..)) hqs (propAttrs_EMB ..) (hval' rfl)]
+            (boolAttrOf_false _ "PROPAGATED" propagated (propAttrs_P ..)) hqs (propAttrs_EMB ..) (hval' rfl)
+            (by rw [propAttrs_TYPE]; exact embAttrOk_some c cs ty (hne _ rfl)) (by rw [propAttrs_TYPE]; exact hct)]
           simp only [propAttrs_NAME, propAttrs_TYPE, propAttrs_ORIGIN, hqd, wdProp]
 
 /-! ### property lists -/
@@ -406,7 +409,7 @@ theorem rt_propval : (v : Val) → (ty : Str) → (isArray : Bool) → (d : Nat)
   | .scalar a, ty, isArray, d, h, hd => by
     simp only [SendablePropVal, if_true] at h
     have ha := rt_embatom a d h.2.2 (by simpa only [depthVal] using hd)
-    simp only [strVal, strOf_ne_null _ a (embAtom_ne_null S a h.2.2), embVal, ha, bind_ok, pure_eq_ok, wdVal]
+    simp only [strVal, strOf_ne_null _ a (embAtom_ne_null S a h.2.2), embVal, embOne, ha, bind_ok, pure_eq_ok, wdVal]
   | .array l, ty, isArray, d, h, hd => by
     simp only [SendablePropVal, if_true] at h
     have hl := rt_embatoms l d h.2.2 (by simpa only [depthVal] using hd)
@@ -418,7 +421,7 @@ theorem rt_prop : (p : Prop_) → (d : Nat) → SendableProp S p → depthProp p
     step_prop C S hC (embAt C d) _ h (by
       intro name' ty' val' isArray' asz' refCls' origin' propagated' e' quals' heq he
       cases heq
-      have hv := h.2.2.2.2.2
+      have hv := h.2.2.2.2.2.1
       rw [he] at hv
       exact rt_propval val ty isArray d hv (by simpa only [depthProp] using hd))
 theorem rt_props : (ps : List Prop_) → (d : Nat) → SendablePropList S ps → depthProps ps ≤ d →
